@@ -1112,4 +1112,103 @@ def demoSrcS : SS :=
   { buffer := ⟨⟨encode ['a', 'é'], 3⟩, {}, false, false⟩, tell := 2, max_size := 100, dir := (), chunk := 2 }
 example : RelS demoSrcS demoModS ∧ lenAllOk demoModS = true := ⟨⟨rfl, rfl, rfl, rfl, rfl, rfl, rfl⟩, by decide⟩
 
+/-- `seek(p, os.SEEK_SET)` of the full method (the `mode` dispatch): `SStr.seek` -/
+theorem src_ss_seek_set_eq_model (lfuel : Nat) (st : SS) (s : SStr) (p : Nat) (h : RelS st s)
+    (hok : travOk (p + 1) (s.bseek 0) 0 p = true) (hk : p + 1 ≤ lfuel) :
+    (SpooledStringIO.seek lfuel st p 0).1 = .ok (p : Int) ∧ RelS (SpooledStringIO.seek lfuel st p 0).2 (s.seek p) := by
+  rcases st with ⟨⟨bst, brd, bcl, brl⟩, tl, ms, dir, ch⟩
+  have hcl : bcl = false := h.opened
+  subst hcl
+  have hb : RelS { buffer := ⟨bst.seek 0, Reader.reset, false, brl⟩, tell := tl, max_size := ms, dir := dir, chunk := ch }
+      (s.bseek 0) := h.bseek0
+  have ht := src_ss_traverse_eq_model lfuel (p + 1) _ (s.bseek 0) 0 p hb (by simpa using hok) hk
+  simp only [Nat.zero_add] at ht
+  rcases htr : SpooledStringIO.traverse lfuel
+      { buffer := ⟨bst.seek 0, Reader.reset, false, brl⟩, tell := tl, max_size := ms, dir := dir, chunk := ch }
+      ((0 : Nat) : Int) (p : Int) with ⟨r, st1⟩
+  rw [htr] at ht
+  simp only at ht
+  have hc1 : st1.buffer.closed = false := ht.2.opened
+  have hrel := ht.2
+  have ht0 : ((0 : Nat) : Int) = 0 := rfl
+  rw [ht0] at htr
+  refine ⟨?_, ?_⟩
+  · simp [SpooledStringIO.seek, SpooledStringIO.seek.body, src_ss_checkClosed_eq_model, CFile.seek,
+      htr, ht.1, src_ss_tell_eq_model, hc1]
+  · constructor <;>
+      simp [SpooledStringIO.seek, SpooledStringIO.seek.body, src_ss_checkClosed_eq_model, CFile.seek,
+        htr, ht.1, src_ss_tell_eq_model, hc1, SStr.seek, hrel.stream, hrel.reader, hrel.real, hrel.max, hrel.chunk]
+
+/-- `seek(n, os.SEEK_CUR)`: traverse `n` code points from `_tell` on, no rewind — `SStr.seekCur`; returns `_tell + n` -/
+theorem src_ss_seek_cur_eq_model (lfuel : Nat) (st : SS) (s : SStr) (n : Nat) (h : RelS st s)
+    (hok : travOk (n + 1) s s.tell (s.tell + n) = true) (hk : n + 1 ≤ lfuel) :
+    (SpooledStringIO.seek lfuel st n 1).1 = .ok ((s.tell + n : Nat) : Int) ∧
+      RelS (SpooledStringIO.seek lfuel st n 1).2 (s.seekCur n) := by
+  rcases st with ⟨⟨bst, brd, bcl, brl⟩, tl, ms, dir, ch⟩
+  have hcl : bcl = false := h.opened
+  subst hcl
+  have htl : tl = (s.tell : Int) := h.tell
+  subst htl
+  have ht := src_ss_traverse_eq_model lfuel (n + 1) _ s s.tell n h hok hk
+  rcases htr : SpooledStringIO.traverse lfuel
+      { buffer := ⟨bst, brd, false, brl⟩, tell := (s.tell : Int), max_size := ms, dir := dir, chunk := ch }
+      (s.tell : Int) (n : Int) with ⟨r, st1⟩
+  rw [htr] at ht
+  simp only at ht
+  have hc1 : st1.buffer.closed = false := ht.2.opened
+  have hrel := ht.2
+  refine ⟨?_, ?_⟩
+  · simp [SpooledStringIO.seek, SpooledStringIO.seek.body, src_ss_checkClosed_eq_model,
+      htr, ht.1, src_ss_tell_eq_model, hc1]
+  · constructor <;>
+      simp [SpooledStringIO.seek, SpooledStringIO.seek.body, src_ss_checkClosed_eq_model,
+        htr, ht.1, src_ss_tell_eq_model, hc1, SStr.seekCur, hrel.stream, hrel.reader, hrel.real, hrel.max, hrel.chunk]
+
+/-- `seek(n, os.SEEK_END)` with `n ≤ len`: the `len` property, a rewind, a traversal of `len - n` code points —
+    `SStr.seekEnd`; returns `len - n` -/
+theorem src_ss_seek_end_eq_model (lfuel : Nat) (st : SS) (s : SStr) (n : Nat) (h : RelS st s)
+    (hlen : lenAllOk s = true) (hn : n ≤ s.len.1)
+    (hok : travOk (s.len.1 - n + 1) (s.len.2.bseek 0) 0 (s.len.1 - n) = true)
+    (hk : s.st.data.length + 2 ≤ lfuel) (hk2 : s.tell + 1 ≤ lfuel) (hk3 : s.len.1 - n + 1 ≤ lfuel) :
+    (SpooledStringIO.seek lfuel st n 2).1 = .ok ((s.len.1 - n : Nat) : Int) ∧
+      RelS (SpooledStringIO.seek lfuel st n 2).2 (s.seekEnd n) := by
+  have hcl : st.buffer.closed = false := h.opened
+  have hl := src_ss_len_eq_model lfuel st s h hlen hk hk2
+  rcases hlr : SpooledStringIO.len lfuel st with ⟨r0, st0⟩
+  rw [hlr] at hl
+  simp only at hl
+  obtain ⟨hl1, hl2⟩ := hl
+  subst hl1
+  rcases st0 with ⟨⟨bst, brd, bcl, brl⟩, tl, ms, dir, ch⟩
+  have hcl0 : bcl = false := hl2.opened
+  subst hcl0
+  have hb : RelS { buffer := ⟨bst.seek 0, Reader.reset, false, brl⟩, tell := tl, max_size := ms, dir := dir, chunk := ch }
+      (s.len.2.bseek 0) := hl2.bseek0
+  have ht := src_ss_traverse_eq_model lfuel (s.len.1 - n + 1) _ (s.len.2.bseek 0) 0 (s.len.1 - n) hb
+    (by simpa using hok) hk3
+  simp only [Nat.zero_add] at ht
+  have harg : ((s.len.1 : Int) - (n : Int)) = ((s.len.1 - n : Nat) : Int) := by omega
+  rcases htr : SpooledStringIO.traverse lfuel
+      { buffer := ⟨bst.seek 0, Reader.reset, false, brl⟩, tell := tl, max_size := ms, dir := dir, chunk := ch }
+      ((0 : Nat) : Int) ((s.len.1 - n : Nat) : Int) with ⟨r, st1⟩
+  rw [htr] at ht
+  simp only at ht
+  have hc1 : st1.buffer.closed = false := ht.2.opened
+  have hrel := ht.2
+  have ht0 : ((0 : Nat) : Int) = 0 := rfl
+  rw [ht0] at htr
+  refine ⟨?_, ?_⟩
+  · simp [SpooledStringIO.seek, SpooledStringIO.seek.body, ss_checkClosed_open _ _ hcl, hlr, harg, CFile.seek,
+      htr, ht.1, src_ss_tell_eq_model, hc1]
+  · constructor <;>
+      simp [SpooledStringIO.seek, SpooledStringIO.seek.body, ss_checkClosed_open _ _ hcl, hlr, harg, CFile.seek,
+        htr, ht.1, src_ss_tell_eq_model, hc1, SStr.seekEnd, hrel.stream, hrel.reader, hrel.real, hrel.max, hrel.chunk]
+
+/-- non-vacuity: the hypotheses of the three `seek` ties hold of an object holding multi-byte text (one code point
+    forward from the start; one code point back from the end) -/
+def demoModS0 : SStr := ⟨⟨encode ['a', 'é'], 0⟩, {}, 0, false, 100, 2⟩
+example : travOk 2 (demoModS0.bseek 0) 0 1 = true ∧ travOk 2 demoModS0 demoModS0.tell (demoModS0.tell + 1) = true := by decide
+example : lenAllOk demoModS = true ∧ 1 ≤ demoModS.len.1 ∧
+    travOk (demoModS.len.1 - 1 + 1) (demoModS.len.2.bseek 0) 0 (demoModS.len.1 - 1) = true := by decide
+
 end C18
